@@ -495,8 +495,17 @@ def check_loop(rec, src, failing, counts):
             fail("early-exit-partial", f"{v}: reported {cls} {r['triple']} from the relation of a nested failing loop only; no extension of the "
                  f"chosen vector {c} is a derivation of the loop valid for {v}", "unbounded / a derivation column", [cls, r["triple"]], v)
         elif not fine:
-            fail("dependency-invalid", f"{v}: reported {cls} {r['triple']} at vector {c}, at which the loop's derivation fails for "
-                 f"{unbounded_reach(typed, vs, v, exts[0])} that {v} depends on", "a vector valid for the dependencies", c, v)
+            # the open finding D10 is: the vector is chosen per variable (from the variable's own column), so it can be one at which the
+            # tool's OWN matrix shows the failure in another column.  A vector without derivation at which the tool's matrix shows no
+            # infinity at all is something else: the matrix itself misses a side condition.
+            reach = unbounded_reach(typed, vs, v, exts[0])
+            clean = k == ksites and not any("i" in column_at([row[jj] for row in mat], tuple(c)) for jj in range(len(vs)))
+            if clean:
+                fail("failure-not-in-matrix", f"{v}: reported {cls} {r['triple']} at vector {c}; the loop has no derivation there (failure reaching {v} from {reach}), "
+                     f"yet the tool's matrix shows no infinity in ANY column at that vector", "an infinity somewhere in the matrix at a vector without derivation", c, v)
+            else:
+                fail("dependency-invalid", f"{v}: reported {cls} {r['triple']} at vector {c}, at which the loop's derivation fails for "
+                     f"{reach} that {v} depends on", "a vector valid for the dependencies", c, v)
         else:
             fail("column-differs", f"{v}: bound {r['triple']} differs from the calculus column {triple_of(vs, fine[0])} at {c}",
                  triple_of(vs, fine[0]), r["triple"], v)
